@@ -82,3 +82,407 @@ Proof.
   - apply list_eqb_eq. intros x y; apply ty_eqb_eq.
   - intros ->. apply list_eqb_refl. intros x; apply ty_eqb_eq; reflexivity.
 Qed.
+
+Lemma NoDup_snoc {A} (l : list A) x : NoDup l -> ~ In x l -> NoDup (l ++ [x]).
+Proof.
+  induction 1 as [|y l Hy Hl IH]; simpl; intros Hx.
+  - constructor; [intros []|constructor].
+  - constructor.
+    + rewrite in_app_iff. intros [H|[H|[]]]; [auto|subst; apply Hx; left; reflexivity].
+    + apply IH. intros H; apply Hx; right; exact H.
+Qed.
+
+Lemma NoDup_map_inj_in {A B} (f : A -> B) l a b :
+  NoDup (map f l) -> In a l -> In b l -> f a = f b -> a = b.
+Proof.
+  induction l as [|x xs IH]; simpl; intros Hnd Ha Hb E; [contradiction|].
+  inversion Hnd as [|? ? Hx Hxs]; subst.
+  destruct Ha as [->|Ha], Hb as [->|Hb]; auto.
+  - exfalso. apply Hx. rewrite E. apply in_map; exact Hb.
+  - exfalso. apply Hx. rewrite <- E. apply in_map; exact Ha.
+Qed.
+
+Lemma existsb_streqb_false x l : existsb (String.eqb x) l = false -> ~ In x l.
+Proof.
+  intros H Hin. assert (existsb (String.eqb x) l = true) as E.
+  { apply existsb_exists. exists x; split; [exact Hin|apply String.eqb_refl]. }
+  congruence.
+Qed.
+
+Lemma nth_error_Forall2 {A B} (R : A -> B -> Prop) l l' i :
+  Forall2 R l l' ->
+  match nth_error l i, nth_error l' i with
+  | Some a, Some b => R a b
+  | None, None => True
+  | _, _ => False
+  end.
+Proof.
+  intros H; revert i; induction H; intros [|i]; simpl; auto. apply IHForall2.
+Qed.
+
+Lemma Forall2_len {A B} (R : A -> B -> Prop) l l' : Forall2 R l l' -> length l = length l'.
+Proof. induction 1; simpl; congruence. Qed.
+
+(* ================================================================ the pass *)
+Section PassProofs.
+  Context {opid prim : Type}.
+  Variable opid_eqb : opid -> opid -> bool.
+  Hypothesis opid_eqb_spec : forall a b, opid_eqb a b = true <-> a = b.
+  Variable inst : opid -> list ty -> result (ctx opid prim).
+  Variable name : opid -> string.
+
+  Notation node := (node opid prim).
+  Notation graph := (graph opid prim).
+  Notation ctx := (ctx opid prim).
+  Notation rgraph := (rgraph opid prim).
+  Notation key := (@key opid).
+  Notation key_eqb := (key_eqb opid_eqb).
+  Notation key_name := (key_name name).
+  Notation lookup := (lookup opid_eqb).
+  Notation glue_node := (@glue_node opid prim opid_eqb).
+  Notation glue_graph := (@glue_graph opid prim opid_eqb).
+  Notation glue_ctx := (@glue_ctx opid prim opid_eqb).
+  Notation glue_key := (glue_key opid_eqb inst name).
+  Notation discover := (discover opid_eqb inst).
+  Notation pass := (pass opid_eqb inst name).
+
+  Lemma key_eqb_eq (a b : key) : key_eqb a b = true <-> a = b.
+  Proof.
+    unfold Instantiate.key_eqb. destruct a as [o1 t1], b as [o2 t2]; simpl.
+    rewrite andb_true_iff, opid_eqb_spec, list_ty_eqb_eq.
+    split; [intros [-> ->]; reflexivity|intros H; inversion H; auto].
+  Qed.
+  Lemma key_eqb_refl (a : key) : key_eqb a a = true.
+  Proof. apply key_eqb_eq; reflexivity. Qed.
+
+  (* ---------------------------------------------------------------- names *)
+  Lemma names_app (a b : list rgraph) : names (a ++ b) = names a ++ names b.
+  Proof. unfold names. apply flat_map_app. Qed.
+  Lemma names_anon (gs : list graph) : names (anon gs) = [].
+  Proof. induction gs; simpl; auto. Qed.
+  Lemma names_name_at i nm (gs : list graph) :
+    (i < length gs)%nat -> names (name_at i nm gs) = [nm].
+  Proof.
+    revert i; induction gs as [|g r IH]; intros i Hi; simpl in *; [lia|].
+    destruct i; simpl.
+    - fold (names (anon r)). rewrite names_anon. reflexivity.
+    - apply IH. lia.
+  Qed.
+  Lemma graphs_anon (gs : list graph) : map r_graph (anon gs) = gs.
+  Proof. induction gs; simpl; congruence. Qed.
+  Lemma graphs_name_at i nm (gs : list graph) : map r_graph (name_at i nm gs) = gs.
+  Proof.
+    revert i; induction gs as [|g r IH]; intros [|i]; simpl; try reflexivity.
+    - rewrite graphs_anon. reflexivity.
+    - rewrite IH. reflexivity.
+  Qed.
+  Lemma length_name_at i nm (gs : list graph) : length (name_at i nm gs) = length gs.
+  Proof. rewrite <- (map_length r_graph), graphs_name_at. reflexivity. Qed.
+
+  (* what one successful step of the gluing loop did *)
+  Lemma glue_key_ok res ch k res' ch' :
+    glue_key (Ok (res, ch)) k = Ok (res', ch') ->
+    exists body gs,
+      inst (fst k) (snd k) = Ok body /\
+      glue_ctx ch res (c_graphs body) = Ok gs /\
+      (N.to_nat (c_main body) < length gs)%nat /\
+      ~ In (key_name k) (names res) /\
+      res' = res ++ name_at (N.to_nat (c_main body)) (key_name k) gs /\
+      ch' = (k, (N.of_nat (length res) + c_main body)%N) :: ch.
+  Proof.
+    unfold Instantiate.glue_key. cbn [bind].
+    intros H. apply bind_ok in H as (body & Hb & H). apply bind_ok in H as (gs & Hg & H).
+    destruct (N.to_nat (c_main body) <? length gs)%nat eqn:Hm; cbn [negb] in H; [|discriminate].
+    destruct (existsb _ (names res)) eqn:Hn; [discriminate|].
+    inversion H; subst. exists body, gs. repeat split; auto.
+    - apply Nat.ltb_lt; exact Hm.
+    - apply existsb_streqb_false; exact Hn.
+  Qed.
+
+  Lemma fold_glue_foldM l r :
+    fold_left glue_key l r = foldM (fun s k => glue_key (Ok s) k) l r.
+  Proof.
+    unfold foldM. revert r; induction l as [|k l IH]; intros r; simpl; [reflexivity|].
+    rewrite IH. f_equal; try (destruct r; reflexivity).
+  Qed.
+
+  Lemma fold_glue_names l : forall res ch res' ch',
+    fold_left glue_key l (Ok (res, ch)) = Ok (res', ch') ->
+    names res' = names res ++ map key_name l /\ (NoDup (names res) -> NoDup (names res')).
+  Proof.
+    induction l as [|k l IH]; intros res ch res' ch' H.
+    - cbn [fold_left] in H. inversion H; subst. rewrite app_nil_r. auto.
+    - cbn [fold_left] in H. destruct (glue_key (Ok (res, ch)) k) as [[res1 ch1]| | |] eqn:E.
+      + apply glue_key_ok in E as (body & gs & _ & _ & Hm & Hn & -> & ->).
+        apply IH in H as [H1 H2]. rewrite names_app, names_name_at in * by exact Hm.
+        split.
+        * rewrite H1, <- app_assoc. reflexivity.
+        * intros Hnd. apply H2. apply NoDup_snoc; assumption.
+      + rewrite fold_glue_foldM, foldM_notok in H by (intros; discriminate). discriminate.
+      + rewrite fold_glue_foldM, foldM_notok in H by (intros; discriminate). discriminate.
+      + rewrite fold_glue_foldM, foldM_notok in H by (intros; discriminate). discriminate.
+  Qed.
+
+  Lemma pass_ok fuel c r order :
+    pass fuel c = Ok (r, order) ->
+    exists res ch gs,
+      discover fuel c = Ok order /\
+      fold_left glue_key order (Ok ([], [])) = Ok (res, ch) /\
+      glue_ctx ch res (c_graphs c) = Ok gs /\
+      (N.to_nat (c_main c) < length gs)%nat /\
+      r = mkRctx (res ++ anon gs) (N.of_nat (length res) + c_main c)%N.
+  Proof.
+    unfold Instantiate.pass. intros H.
+    apply bind_ok in H as (order' & Hd & H). apply bind_ok in H as ([res ch] & Hf & H).
+    apply bind_ok in H as (gs & Hg & H).
+    destruct (N.to_nat (c_main c) <? length gs)%nat eqn:Hm; cbn [negb] in H; [|discriminate].
+    inversion H; subst. exists res, ch, gs. repeat split; auto. apply Nat.ltb_lt; exact Hm.
+  Qed.
+
+  (* the names of the result are the names of the instantiations, in gluing order, and no
+     name occurs twice *)
+  Lemma pass_names_nodup fuel c r order :
+    pass fuel c = Ok (r, order) ->
+    names (rc_graphs r) = map key_name order /\ NoDup (names (rc_graphs r)).
+  Proof.
+    intros H. apply pass_ok in H as (res & ch & gs & _ & Hf & _ & _ & ->).
+    apply fold_glue_names in Hf as [H1 H2]. simpl in *.
+    rewrite names_app, names_anon, app_nil_r. split; [exact H1|apply H2; constructor].
+  Qed.
+
+  (* two different instantiations with one name: the pass cannot succeed *)
+  Lemma names_collide_refutes fuel c order k1 k2 :
+    discover fuel c = Ok order ->
+    In k1 order -> In k2 order -> k1 <> k2 -> key_name k1 = key_name k2 ->
+    forall r, pass fuel c <> Ok r.
+  Proof.
+    intros Hd H1 H2 Hne E [r order'] Hp.
+    pose proof (pass_ok _ _ _ _ Hp) as (res & ch & gs & Hd' & _).
+    rewrite Hd in Hd'. inversion Hd'; subst order'.
+    apply pass_names_nodup in Hp as [Hn Hnd]. rewrite Hn in Hnd.
+    apply Hne. eapply NoDup_map_inj_in; eauto.
+  Qed.
+End PassProofs.
+
+(* ================================================================ semantics *)
+Section SemProofs.
+  Context {opid prim : Type}.
+  Variable opid_eqb : opid -> opid -> bool.
+  Hypothesis opid_eqb_spec : forall a b, opid_eqb a b = true <-> a = b.
+  Variable inst : opid -> list ty -> result (ctx opid prim).
+  Variable name : opid -> string.
+  Variable value : Type.
+  Variable eval_prim : prim -> list (gsem value) -> list value -> result value.
+
+  Notation node := (node opid prim).
+  Notation graph := (graph opid prim).
+  Notation ctx := (ctx opid prim).
+  Notation rgraph := (rgraph opid prim).
+  Notation key := (@key opid).
+  Notation key_eqb := (key_eqb opid_eqb).
+  Notation lookup := (lookup opid_eqb).
+  Notation glue_node := (@glue_node opid prim opid_eqb).
+  Notation glue_graph := (@glue_graph opid prim opid_eqb).
+  Notation glue_ctx := (@glue_ctx opid prim opid_eqb).
+  Notation glue_key := (glue_key opid_eqb inst name).
+  Notation pass := (pass opid_eqb inst name).
+  Notation gsem := (gsem value).
+  Notation eval_node := (eval_node value eval_prim).
+  Notation eval_graph := (eval_graph value eval_prim).
+  Notation eval_graphs := (eval_graphs value eval_prim).
+  Notation eval_ctx := (eval_ctx value eval_prim).
+  Notation eval_rctx := (eval_rctx value eval_prim).
+
+  Definition exteq (f g : gsem) : Prop := forall vs, f vs = g vs.
+  (* a primitive uses the graphs it depends on only through what they compute *)
+  Definition prim_extensional : Prop :=
+    forall p fs gs vs, Forall2 exteq fs gs -> eval_prim p fs vs = eval_prim p gs vs.
+  Hypothesis eval_prim_ext : prim_extensional.
+
+  Variable csem : key -> gsem.   (* meaning of custom nodes in the source *)
+  Variable any : key -> gsem.    (* the result has no custom node: irrelevant *)
+
+  Definition cache_ok (env : list gsem) (ch : @cache opid) : Prop :=
+    forall k gi, lookup k ch = Some gi ->
+                 exists f, nth_error env (N.to_nat gi) = Some f /\ exteq f (csem k).
+
+  Lemma nth_shift {A} (env s1 : list A) d :
+    nth_error (env ++ s1) (N.to_nat (N.of_nat (length env) + d)) = nth_error s1 (N.to_nat d).
+  Proof.
+    rewrite N2Nat.inj_add, Nat2N.id, nth_error_app2 by lia. f_equal. lia.
+  Qed.
+
+  Lemma sim_sems env s1 s2 gd :
+    Forall2 exteq s1 s2 ->
+    match get_sems value (env ++ s1) (map (N.add (N.of_nat (length env))) gd),
+          get_sems value s2 gd with
+    | Ok a, Ok b => Forall2 exteq a b
+    | Err, Err => True
+    | _, _ => False
+    end.
+  Proof.
+    intros Hs. unfold get_sems. induction gd as [|d gd IH]; cbn [map mapM]; [constructor|].
+    rewrite nth_shift. pose proof (nth_error_Forall2 _ _ _ (N.to_nat d) Hs) as Hn.
+    destruct (nth_error s1 (N.to_nat d)) as [f|], (nth_error s2 (N.to_nat d)) as [f2|];
+      try contradiction; cbn [bind]; [|exact I].
+    destruct (mapM _ (map _ gd)) as [a| | |], (mapM _ gd) as [b| | |]; try contradiction; cbn [bind]; auto.
+  Qed.
+
+  Lemma sim_node env s1 s2 ch res g g' n n' st :
+    length env = length res -> cache_ok env ch -> Forall2 exteq s1 s2 ->
+    glue_node ch res (N.of_nat (length res)) g n = Ok n' ->
+    eval_node any (env ++ s1) g' st n' = eval_node csem s2 g st n.
+  Proof.
+    intros Hlen Hc Hs Hg. destruct st as [vals ins]. rewrite <- Hlen in Hg.
+    destruct n as [t|p deps gdeps t|gc deps t|o deps t]; cbn [Instantiate.glue_node] in Hg.
+    - inversion Hg; subst. reflexivity.
+    - inversion Hg; subst. cbn [Instantiate.eval_node].
+      destruct (get_vals value vals deps) as [vs| | |]; cbn [bind]; try reflexivity.
+      pose proof (sim_sems env s1 s2 gdeps Hs) as H.
+      destruct (get_sems value (env ++ s1) _) as [a| | |], (get_sems value s2 gdeps) as [b| | |];
+        try contradiction; cbn [bind]; try reflexivity.
+      rewrite (eval_prim_ext p a b vs H). reflexivity.
+    - inversion Hg; subst. cbn [Instantiate.eval_node].
+      destruct (get_vals value vals deps) as [vs| | |]; cbn [bind]; try reflexivity.
+      rewrite nth_shift. pose proof (nth_error_Forall2 _ _ _ (N.to_nat gc) Hs) as Hn.
+      destruct (nth_error s1 (N.to_nat gc)) as [f|], (nth_error s2 (N.to_nat gc)) as [f2|];
+        try contradiction; [|reflexivity].
+      rewrite (Hn vs). reflexivity.
+    - apply bind_ok in Hg as (tys & Ht & Hg).
+      destruct (lookup (o, tys) ch) as [gi|] eqn:Hl; [|discriminate].
+      destruct (nth_error res (N.to_nat gi)) as [callee|]; [|discriminate].
+      destruct (list_eqb ty_eqb _ tys); [|discriminate].
+      inversion Hg; subst. cbn [Instantiate.eval_node].
+      destruct (get_vals value vals deps) as [vs| | |]; cbn [bind]; try reflexivity.
+      rewrite Ht; cbn [bind].
+      destruct (Hc _ _ Hl) as (f & Hf & Hfe).
+      assert (nth_error (env ++ s1) (N.to_nat gi) = Some f) as ->.
+      { rewrite nth_error_app1; [exact Hf|]. apply nth_error_Some. congruence. }
+      rewrite (Hfe vs). reflexivity.
+  Qed.
+
+  Lemma sim_fold env s1 s2 ch res g g' :
+    length env = length res -> cache_ok env ch -> Forall2 exteq s1 s2 ->
+    forall l l', Forall2 (fun n n' => glue_node ch res (N.of_nat (length res)) g n = Ok n') l l' ->
+    forall acc,
+      fold_left (fun acc n => let* st := acc in eval_node any (env ++ s1) g' st n) l' acc =
+      fold_left (fun acc n => let* st := acc in eval_node csem s2 g st n) l acc.
+  Proof.
+    intros Hlen Hc Hs l l' H. induction H as [|n n' l l' Hn Hl IH]; intros acc; cbn [fold_left]; [reflexivity|].
+    rewrite IH. f_equal. destruct acc as [st| | |]; cbn [bind]; try reflexivity.
+    eapply sim_node; eauto.
+  Qed.
+
+  Lemma sim_graph env s1 s2 ch res g g' :
+    length env = length res -> cache_ok env ch -> Forall2 exteq s1 s2 ->
+    glue_graph ch res (N.of_nat (length res)) g = Ok g' ->
+    exteq (eval_graph any (env ++ s1) g') (eval_graph csem s2 g).
+  Proof.
+    intros Hlen Hc Hs Hg ins. unfold Instantiate.glue_graph in Hg.
+    apply bind_ok in Hg as (ns & Hns & Hg). inversion Hg; subst; clear Hg.
+    apply mapM_Forall2 in Hns. unfold Instantiate.eval_graph. cbn [g_nodes g_out].
+    rewrite (sim_fold env s1 s2 ch res (g_nodes g) ns Hlen Hc Hs _ _ Hns). reflexivity.
+  Qed.
+
+  Lemma sim_graphs env ch res :
+    length env = length res -> cache_ok env ch ->
+    forall gs gs', Forall2 (fun g g' => glue_graph ch res (N.of_nat (length res)) g = Ok g') gs gs' ->
+    forall s1 s2, Forall2 exteq s1 s2 ->
+    exists s1', eval_graphs any gs' (env ++ s1) = env ++ s1' /\
+                Forall2 exteq s1' (eval_graphs csem gs s2).
+  Proof.
+    intros Hlen Hc gs gs' H. induction H as [|g g' gs gs' Hg Hgs IH]; intros s1 s2 Hs; cbn [Instantiate.eval_graphs].
+    - exists s1. split; [reflexivity|exact Hs].
+    - rewrite <- app_assoc. apply IH. apply Forall2_app; [exact Hs|].
+      constructor; [|constructor]. eapply sim_graph; eauto.
+  Qed.
+
+  Lemma eval_graphs_app (a b : list graph) sem env :
+    Instantiate.eval_graphs value eval_prim sem (a ++ b) env =
+    Instantiate.eval_graphs value eval_prim sem b (Instantiate.eval_graphs value eval_prim sem a env).
+  Proof. revert env; induction a as [|g a IH]; intros env; simpl; [reflexivity|apply IH]. Qed.
+
+  Lemma eval_graphs_length (a : list graph) sem env :
+    length (Instantiate.eval_graphs value eval_prim sem a env) = (length env + length a)%nat.
+  Proof.
+    revert env; induction a as [|g a IH]; intros env; simpl; [lia|].
+    rewrite IH, app_length. simpl. lia.
+  Qed.
+
+  Definition env_of (res : list rgraph) : list gsem := eval_graphs any (map r_graph res) [].
+
+  (* gluing a whole context after [res] *)
+  Lemma sim_ctx res ch gs gs' :
+    cache_ok (env_of res) ch -> glue_ctx ch res gs = Ok gs' ->
+    exists s1', eval_graphs any gs' (env_of res) = env_of res ++ s1' /\
+                Forall2 exteq s1' (eval_graphs csem gs []) /\ length s1' = length gs.
+  Proof.
+    intros Hc Hg. unfold Instantiate.glue_ctx in Hg. apply mapM_Forall2 in Hg.
+    assert (length (env_of res) = length res) as Hlen.
+    { unfold env_of. rewrite eval_graphs_length, map_length. reflexivity. }
+    destruct (sim_graphs (env_of res) ch res Hlen Hc gs gs' Hg [] [] (Forall2_nil _)) as (s1' & H1 & H2).
+    rewrite app_nil_r in H1. exists s1'. repeat split; auto.
+    apply Forall2_len in H2. rewrite H2, eval_graphs_length. reflexivity.
+  Qed.
+
+  Lemma cache_ok_extend env s ch : cache_ok env ch -> cache_ok (env ++ s) ch.
+  Proof.
+    intros Hc k gi Hl. destruct (Hc k gi Hl) as (f & Hf & He). exists f. split; [|exact He].
+    rewrite nth_error_app1; [exact Hf|]. apply nth_error_Some. congruence.
+  Qed.
+
+  Lemma fold_glue_sem l : forall res ch res' ch',
+    (forall k, In k l -> consistent inst value eval_prim csem k) ->
+    cache_ok (env_of res) ch ->
+    fold_left glue_key l (Ok (res, ch)) = Ok (res', ch') ->
+    cache_ok (env_of res') ch'.
+  Proof.
+    induction l as [|k l IH]; intros res ch res' ch' Hcons Hc H; cbn [fold_left] in H.
+    - inversion H; subst; exact Hc.
+    - destruct (glue_key (Ok (res, ch)) k) as [[res1 ch1]| | |] eqn:E;
+        try (rewrite fold_glue_foldM, foldM_notok in H by (intros; discriminate); discriminate).
+      apply (IH res1 ch1 res' ch'); [intros; apply Hcons; right; assumption| |exact H].
+      apply glue_key_ok in E as (body & gs & Hb & Hg & Hm & _ & -> & ->).
+      destruct (sim_ctx res ch _ _ Hc Hg) as (s1' & H1 & H2 & H3).
+      assert (env_of (res ++ name_at (N.to_nat (c_main body)) (Instantiate.key_name name k) gs)
+              = env_of res ++ s1') as Henv.
+      { unfold env_of. rewrite map_app, graphs_name_at, eval_graphs_app. exact H1. }
+      rewrite Henv. intros k' gi Hl. cbn [Instantiate.lookup] in Hl.
+      destruct (key_eqb k' k) eqn:Ek.
+      + apply (key_eqb_eq opid_eqb opid_eqb_spec) in Ek. subst k'. inversion Hl; subst gi; clear Hl.
+        assert (length (env_of res) = length res) as Hlen.
+        { unfold env_of. rewrite eval_graphs_length, map_length. reflexivity. }
+        rewrite <- Hlen, nth_shift.
+        pose proof (nth_error_Forall2 _ _ _ (N.to_nat (c_main body)) H2) as Hn.
+        assert (Hcs := Hcons k (or_introl eq_refl) body Hb). unfold Instantiate.eval_ctx in Hcs.
+        destruct (nth_error s1' (N.to_nat (c_main body))) as [f|] eqn:Ef.
+        * destruct (nth_error (eval_graphs csem (c_graphs body) []) (N.to_nat (c_main body))) as [f2|];
+            [|contradiction].
+          exists f. split; [reflexivity|]. intros vs. rewrite Hcs. apply Hn.
+        * apply nth_error_None in Ef.
+          apply mapM_Forall2, Forall2_len in Hg. lia.
+      + exact (cache_ok_extend _ s1' _ Hc k' gi Hl).
+  Qed.
+
+  (* Evaluating the instantiated context = evaluating the source context with every custom
+     node read as the meaning of its own instantiation. *)
+  Theorem inst_pass_sem fuel c r order :
+    pass fuel c = Ok (r, order) ->
+    (forall k, In k order -> consistent inst value eval_prim csem k) ->
+    forall ins, eval_rctx any r ins = eval_ctx csem c ins.
+  Proof.
+    intros Hp Hcons ins.
+    apply pass_ok in Hp as (res & ch & gs & _ & Hf & Hg & Hm & ->).
+    assert (cache_ok (env_of res) ch) as Hc.
+    { eapply fold_glue_sem; [exact Hcons| |exact Hf]. intros k gi Hl; discriminate. }
+    destruct (sim_ctx res ch _ _ Hc Hg) as (s1' & H1 & H2 & H3).
+    unfold Instantiate.eval_rctx, Instantiate.eval_ctx. cbn [c_graphs c_main rc_graphs rc_main].
+    rewrite map_app, graphs_anon, eval_graphs_app. fold (env_of res). rewrite H1.
+    assert (length (env_of res) = length res) as Hlen.
+    { unfold env_of. rewrite eval_graphs_length, map_length. reflexivity. }
+    rewrite <- Hlen, nth_shift.
+    pose proof (nth_error_Forall2 _ _ _ (N.to_nat (c_main c)) H2) as Hn.
+    destruct (nth_error s1' _) as [f|], (nth_error (eval_graphs csem (c_graphs c) []) _) as [f2|];
+      try contradiction; [apply Hn|reflexivity].
+  Qed.
+End SemProofs.
